@@ -31,7 +31,9 @@ LEVEL = 'exploration'
 TECHNIQUE = ('runtime monitoring: semantic snapshots of schema / value arguments before and after every codec call '
              '(contracts on the real entry points, icontract when available), comparison of every call in a shared '
              'history with the same call on fresh objects, object-identity scan of result graphs, interleaved stepping '
-             'of suspended streaming decoders, threads under a 1 microsecond switch interval, debug logging on/off (incl. open-type resolution over one shared schema)')
+             'of suspended streaming decoders, threads under a 1 microsecond switch interval and under a deterministic line-granular '
+             'preemption scheduler (sys.monitoring), debug logging on/off (incl. open-type resolution over one shared schema), '
+             'caller-owned openTypes maps compared before/after')
 RULE = ('a case = (T, v) with a history of 12..30 codec calls (ber/cer/der/native encode and decode, streaming decode, '
         'calls that fail on damaged input) sharing ONE schema object, ONE value object and the module-level codec '
         'singletons; arms: snapshots, isolation, aliasing (mutating one result must not move the spec or a sibling '
